@@ -3,6 +3,8 @@
 package carddav
 
 import (
+	"encoding"
+
 	"github.com/emersion/go-webdav/internal"
 	vrt "github.com/emersion/go-webdav/internal/zz_verifrt"
 )
@@ -44,7 +46,36 @@ var verifAddressDataSchema = []internal.VerifShapeSpec{
 // VerifH_C09_WireSchema: the wire structs of addressbook-query,
 // addressbook-multiget and the address-data request map to exactly the
 // elements, attributes and namespaces of RFC 6352.
+
+// verifFreeAttr: a free-form attribute of a request element. If its Go type
+// decodes its own text, the decoder must accept the values the RFC requires
+// every server to understand; an attribute of plain string type takes
+// everything (encoding/xml stores the text).
+func verifFreeAttr(field interface{}, what string, values []string) {
+	u, ok := field.(encoding.TextUnmarshaler)
+	if !ok {
+		return
+	}
+	for _, v := range values {
+		vrt.Assert(u.UnmarshalText([]byte(v)) == nil, what+" accepts "+v)
+	}
+}
+
+// verifFreeAttrs: RFC 6352 section 8.3 (i;ascii-casemap and i;unicode-casemap are required of every server); names are any iana-token or x-name.
+func verifFreeAttrs() {
+	var tm textMatch
+	verifFreeAttr(&tm.Collation, "the collation attribute of text-match", []string{"i;ascii-casemap", "i;unicode-casemap"})
+	names := []string{"EMAIL", "X-ABC-DEF", "fn", "VERSION"}
+	var vpropFilter propFilter
+	verifFreeAttr(&vpropFilter.Name, "the name attribute of propFilter", names)
+	var vparamFilter paramFilter
+	verifFreeAttr(&vparamFilter.Name, "the name attribute of paramFilter", names)
+	var vprop prop
+	verifFreeAttr(&vprop.Name, "the name attribute of prop", names)
+}
+
 func VerifH_C09_WireSchema() {
+	verifFreeAttrs()
 	internal.VerifCheckShape(vrt.XMLShape(&addressbookQuery{}), verifNS, verifQuerySchema, "addressbook-query")
 	internal.VerifCheckShape(vrt.XMLShape(&addressbookMultiget{}), verifNS, verifMultigetSchema, "addressbook-multiget")
 	internal.VerifCheckShape(vrt.XMLShape(&addressDataReq{}), verifNS, verifAddressDataSchema, "address-data")
